@@ -370,72 +370,75 @@ theorem invG_setShape {s : State} {sh : Shape} (h : InvG sh s) (sh' : Shape) (hl
   · simp only [hl]; exact h4
   · simp only [hl]; exact h6
 
-theorem inv_updateFrom {s : State} (h : Inv s) (o : Other) (hns : o.comps ≠ [] → o.shape ≠ []) :
-    Inv (updateFromImpl s o).state := by
-  simp only [updateFromImpl]
-  split
-  · exact h
-  split
-  · exact h
-  -- stages 1..3 yield a state whose arrays may still have the old shape
+/-- What stages 1–3 of `update_values_from_data` establish: all clauses of the invariant except that
+the arrays may still have their previous shape; every main component left is one of the survivors
+of stage 1; labels of existing identifiers are untouched. -/
+theorem ufStages_key {s : State} (h : Inv s) (o : Other) (hns : o.comps ≠ [] → o.shape ≠ []) :
+    ∃ (R : List Cid) (sh : Shape), InvG sh (ufStages s o).1 ∧ (ufStages s o).1.shape = o.shape ∧
+      (∀ x ∈ (ufStages s o).1.comps, x.kind = .main → x ∈ s.comps.filter (fun x => !R.contains x.cid)) ∧
+      (∀ c, c < s.next → (ufStages s o).1.label c = s.label c) ∧
+      (∀ x ∈ s.comps.filter (fun x => !R.contains x.cid), x.kind.isCoord = false →
+        (o.comps.map (·.1)).contains (s.label x.cid) = true) := by
   obtain ⟨R, hs1, hI1, hsurv, hkeep⟩ := uf_stage1 h (o.comps.map (·.1))
   have hst : ufRemove s (o.comps.map (·.1)) = removeAll s (staleIds s (o.comps.map (·.1))) := rfl
-  generalize hr3 : (((ufRemove s (o.comps.map (·.1))).bind fun s1 =>
-      if (o.shape.length != s.shape.length) = true then ufDropCoords s1 else (s1, [])).bind
-      (ufReshape · o.shape (o.shape.length != s.shape.length))) = r3
-  have key : ∃ sh, InvG sh r3.1 ∧ r3.1.shape = o.shape ∧
-      (∀ x ∈ r3.1.comps, x.kind = .main → x ∈ s.comps.filter (fun x => !R.contains x.cid)) ∧
-      (∀ c, c < s.next → r3.1.label c = s.label c) := by
-    rw [← hr3, hst]
-    simp only [Res.bind]
-    generalize hs1' : (removeAll s (staleIds s (o.comps.map (·.1)))).1 = s1 at hI1 hs1
-    have hs1c : s1.comps = s.comps.filter (fun x => !R.contains x.cid) := by rw [hs1]
-    have hs1l : ∀ c, s1.label c = s.label c := by intro c; rw [hs1]; rfl
-    have hs1n : s1.next = s.next := by rw [hs1]
-    have hs1s : s1.shape = s.shape := by rw [hs1]
-    by_cases hnd : (o.shape.length != s.shape.length) = true
-    · -- the number of dimensions changes
-      simp only [hnd, if_true, ufDropCoords, Res.bind, ufReshape]
-      have hI2 := inv_setCoords hI1 none
-      obtain ⟨f12, hco2, _⟩ := frame_setCoords s1 none
-      generalize (setCoords s1 none).1 = s2 at hI2 hco2 f12
-      have hE : o.shape = [] → ∀ c ∈ s2.comps, c.kind.isCoord = true := by
-        intro hos c hc
-        cases hk : c.kind.isCoord
-        · exfalso
-          have hc1 : c ∈ s1.comps := f12.comps c hc hk
-          rw [hs1c] at hc1
-          have := hsurv c hc1 hk
-          have hoc : o.comps = [] := by
-            cases hoc : o.comps with
-            | nil => rfl
-            | cons x xs => exact absurd hos (hns (by rw [hoc]; simp))
-          simp [hoc] at this
-        · rfl
-      obtain ⟨hG, hsh, hcomps, hlab, _⟩ := invG_rebuildPixels hI2 hco2 o.shape hE
-      refine ⟨s2.shape, hG, hsh, ?_, ?_⟩
-      · intro x hx hk
-        have hnc : x.kind.isCoord = false := by simp [hk, Kind.isCoord]
-        have := f12.comps x (hcomps x hx hnc) hnc
-        rw [hs1c] at this; exact this
-      · intro c hc
-        rw [hlab c (Nat.lt_of_lt_of_le (hs1n ▸ hc) f12.next), f12.label c (hs1n ▸ hc), hs1l]
-    · -- same number of dimensions: only the shape changes
-      simp only [hnd, Bool.false_eq_true, if_false, ufReshape]
-      have hlen : o.shape.length = s.shape.length := by simpa using hnd
-      refine ⟨s1.shape, ?_, trivial, ?_, ?_⟩
-      · apply invG_setShape hI1 o.shape (by rw [hs1s]; exact hlen)
-        intro hos
-        apply hI1.empty
-        rw [hs1s]
-        apply List.eq_nil_of_length_eq_zero
-        rw [← hlen, hos]; rfl
-      · intro x hx _
-        rw [← hs1c]; exact hx
-      · intro c _; exact hs1l c
-  obtain ⟨sh, hG, hsh, hmain, hlab⟩ := key
-  have hall : ∀ x ∈ r3.1.comps, x.kind = .main →
-      (((nonCoord s).map (fun c => s.label c.cid)).filter (o.comps.map (·.1)).contains).contains (r3.1.label x.cid) = true := by
+  refine ⟨R, ?_⟩
+  simp only [ufStages, hst, Res.bind]
+  generalize hs1' : (removeAll s (staleIds s (o.comps.map (·.1)))).1 = s1 at hI1 hs1
+  have hs1c : s1.comps = s.comps.filter (fun x => !R.contains x.cid) := by rw [hs1]
+  have hs1l : ∀ c, s1.label c = s.label c := by intro c; rw [hs1]; rfl
+  have hs1n : s1.next = s.next := by rw [hs1]
+  have hs1s : s1.shape = s.shape := by rw [hs1]
+  by_cases hnd : (o.shape.length != s.shape.length) = true
+  · -- the number of dimensions changes
+    simp only [hnd, if_true, ufDropCoords, Res.bind, ufReshape]
+    have hI2 := inv_setCoords hI1 none
+    obtain ⟨f12, hco2, _⟩ := frame_setCoords s1 none
+    generalize (setCoords s1 none).1 = s2 at hI2 hco2 f12
+    have hE : o.shape = [] → ∀ c ∈ s2.comps, c.kind.isCoord = true := by
+      intro hos c hc
+      cases hk : c.kind.isCoord
+      · exfalso
+        have hc1 : c ∈ s1.comps := f12.comps c hc hk
+        rw [hs1c] at hc1
+        have := hsurv c hc1 hk
+        have hoc : o.comps = [] := by
+          cases hoc : o.comps with
+          | nil => rfl
+          | cons x xs => exact absurd hos (hns (by rw [hoc]; simp))
+        simp [hoc] at this
+      · rfl
+    obtain ⟨hG, hsh, hcomps, hlab, _⟩ := invG_rebuildPixels hI2 hco2 o.shape hE
+    refine ⟨s2.shape, hG, hsh, ?_, ?_, hsurv⟩
+    · intro x hx hk
+      have hnc : x.kind.isCoord = false := by simp [hk, Kind.isCoord]
+      have := f12.comps x (hcomps x hx hnc) hnc
+      rw [hs1c] at this; exact this
+    · intro c hc
+      rw [hlab c (Nat.lt_of_lt_of_le (hs1n ▸ hc) f12.next), f12.label c (hs1n ▸ hc), hs1l]
+  · -- same number of dimensions: only the shape changes
+    simp only [hnd, Bool.false_eq_true, if_false, ufReshape]
+    have hlen : o.shape.length = s.shape.length := by simpa using hnd
+    refine ⟨s1.shape, ?_, trivial, ?_, ?_, hsurv⟩
+    · apply invG_setShape hI1 o.shape (by rw [hs1s]; exact hlen)
+      intro hos
+      apply hI1.empty
+      rw [hs1s]
+      apply List.eq_nil_of_length_eq_zero
+      rw [← hlen, hos]; rfl
+    · intro x hx _
+      rw [← hs1c]; exact hx
+    · intro c _; exact hs1l c
+
+/-- The state before the "add components that did not exist" loop satisfies the invariant. -/
+theorem inv_ufRefreshed {s : State} (h : Inv s) (o : Other) (hns : o.comps ≠ [] → o.shape ≠ []) :
+    let t := (ufStages s o).1
+    Inv { t with comps := (applyRefresh t
+        (((nonCoord s).map (fun c => s.label c.cid)).filter (o.comps.map (·.1)).contains) o) } ∧
+    t.shape = o.shape := by
+  intro t
+  obtain ⟨R, sh, hG, hsh, hmain, hlab, hsurv⟩ := ufStages_key h o hns
+  have hall : ∀ x ∈ (ufStages s o).1.comps, x.kind = .main →
+      (((nonCoord s).map (fun c => s.label c.cid)).filter (o.comps.map (·.1)).contains).contains ((ufStages s o).1.label x.cid) = true := by
     intro x hx hk
     have hxf := hmain x hx hk
     have hxs : x ∈ s.comps := (List.mem_filter.1 hxf).1
@@ -445,7 +448,16 @@ theorem inv_updateFrom {s : State} (h : Inv s) (o : Other) (hns : o.comps ≠ []
     · simp only [nonCoord, List.mem_map, List.mem_filter]
       exact ⟨x, ⟨hxs, by simp [hnc]⟩, rfl⟩
     · exact hsurv x hxf hnc
-  have hI4 := inv_refresh hG _ o hsh hall
+  exact ⟨inv_refresh hG _ o hsh hall, hsh⟩
+
+theorem inv_updateFrom {s : State} (h : Inv s) (o : Other) (hns : o.comps ≠ [] → o.shape ≠ []) :
+    Inv (updateFromImpl s o).state := by
+  simp only [updateFromImpl]
+  split
+  · exact h
+  split
+  · exact h
+  obtain ⟨hI4, hsh⟩ := inv_ufRefreshed h o hns
   have hI5 := inv_addNewOnes o.shape
     (o.comps.filter fun p => !((nonCoord s).map (fun c => s.label c.cid)).contains p.1) hI4 hsh
     (by
@@ -458,7 +470,6 @@ theorem inv_updateFrom {s : State} (h : Inv s) (o : Other) (hns : o.comps ≠ []
   · exact hI5
   · simp only [ok]
     exact inv_ufFinish hI5 o
-
 
 /-! ## every call inside the hypothesis preserves `Inv` -/
 
